@@ -66,9 +66,10 @@ class Engine(EngineBase):
         kind = rng.choice(["buffer", "buffer", "stale"])
         ntargets = rng.randrange(1, 5)  # last target is the project document
         nh = [rng.randrange(1, 4) for _ in range(ntargets)]
-        if kind == "buffer" and rng.random() < 0.65:
-            # several handles on one document inside a buffered block run into a known defect of the
-            # dependency (see known_findings.json); most buffered scenarios therefore use one handle
+        if kind == "buffer" and rng.random() < 0.35:
+            # several handles on one document inside a buffered block can run into a known defect of the
+            # dependency (see known_findings.json); when exactly is computed (block_exit), but a run
+            # that meets it ends there, so part of the buffered scenarios use one handle per document
             nh = [1] * ntargets
         ops = []
         depth = 0
@@ -252,8 +253,12 @@ class Run:
             w = World(self, mode[0], mode)
             self.w = w
             self.used_in_block = {}
+            self.defect_possible = {}   # target -> the dependency's flush defect may have struck (this world)
+            self.blk = None             # bookkeeping of the open outermost block (see block_* below)
+            self.capacity_touched = False
             if mode == "oneblock":
                 w.enter(None)
+                self.block_enter(None)
             vs = []
             for i, op in enumerate(sc["ops"]):
                 self.step(op, w)
@@ -264,14 +269,17 @@ class Run:
                         self.keys.append("g:" + ">".join(self.grams[-3:]))
                 vs.append(self.file_view(w) if w.depth() == 0 else None)
             if mode == "oneblock":
+                self.block_exit(w)
                 w.exit()
             while w.depth():
+                if w.depth() == 1:
+                    self.block_exit(w)
                 w.exit()
             vs.append(self.file_view(w))
             self.check_all(w, "at the end")
             views[mode] = vs
-            multi = {t for t, hs in self.used_in_block.items() if len(hs) > 1}
-            self.multi_targets = getattr(self, "multi_targets", set()) | multi
+            self.multi_targets = getattr(self, "multi_targets", set()) | {t for t, v in
+                                                                          self.defect_possible.items() if v}
         ops = sc["ops"] + [["end"]]
         for i, va in enumerate(views["asgen"]):
             if va is not None:
@@ -288,16 +296,22 @@ class Run:
         if k == "enter":
             if w.mode == "asgen":
                 w.enter(op[1])
+                self.block_enter(op[1], nested=w.depth() > 1)
                 self.probe("buffer_enter")
             return
         if k == "exit":
             if w.mode == "asgen" and w.depth():
+                if w.depth() == 1:
+                    self.block_exit(w)
                 w.exit()
                 if w.depth() == 0:
                     self.check_all(w, "after leaving the buffered block")
             return
         if k == "capacity":
             if w.mode == "asgen":
+                self.capacity_touched = True
+                if self.blk is not None:
+                    self.block_coarse()
                 before = self.signac.get_current_buffer_size()
                 self.signac.set_buffer_capacity(op[1])
                 if before > op[1]:
@@ -322,7 +336,7 @@ class Run:
         try:
             self.step_mapping(op, w)
         except Mismatch as m:
-            if len(self.used_in_block.get(t, ())) > 1 and m.fp != "C05:buffered:multi-handle-lost-update":
+            if self.defect_possible.get(t) and m.fp != "C05:buffered:multi-handle-lost-update":
                 raise Mismatch("C05", "C05:buffered:multi-handle-lost-update",
                                "several handles of one document were used inside a buffered block: " + m.msg,
                                "C05:buffered:multi-handle-lost-update")
@@ -336,6 +350,7 @@ class Run:
         buffered = w.depth() > 0
         if buffered:
             self.used_in_block.setdefault(t, set()).add(h)
+            self.block_use(w, t, h, want_exc)
         exc = None
         got = None
         try:
@@ -350,6 +365,9 @@ class Run:
                            f"world {w.mode} ({'buffered' if buffered else 'unbuffered'}): {op} read "
                            f"{str(got)[:120]} but a dict would hold {str(self.model[t])[:120]}")
         self.model[t] = new_model
+        if buffered and self.blk is not None:
+            import copy
+            self.blk["view"][(t, h)] = copy.deepcopy(new_model)
         # the writing handle always sees its own writes
         try:
             seen = w.doc(t, h)()
@@ -364,6 +382,72 @@ class Run:
                            f"C05:read-back:writing-handle:{'buffered' if w.depth() else 'unbuffered'}:{op[0]}")
         if w.depth() == 0:
             self.check_target(w, t, f"after {op}")
+
+    # ---- when can the dependency's flush defect strike? -------------------------------
+    # synced_collections flushes the collections registered in a block in reverse order of their first
+    # use; the first one flushed for a file decides from ITS OWN last view of the data: if that view
+    # equals what was on disk when the file entered the buffer, the buffered content is dropped (open
+    # finding C05:buffered:multi-handle-lost-update).  For a plain block (not nested, default capacity,
+    # no expected failures) that condition is computed exactly, so every other multi-handle mismatch
+    # is still reported; otherwise any second handle in the block counts as "defect possible".
+    def block_enter(self, cap, nested=False):
+        if nested:
+            if self.blk is not None:
+                self.block_coarse()
+            return
+        self.blk = {"simple": cap is None and not self.capacity_touched, "orig": {}, "order": {}, "view": {},
+                    "uncertain": set(), "absent": set()}
+        if cap is not None:
+            self.capacity_touched = True
+
+    def block_coarse(self):
+        self.blk["simple"] = False
+        for t, hs in self.blk["order"].items():
+            if len(hs) > 1:
+                self.defect_possible[t] = True
+
+    def block_use(self, w, t, h, want_exc):
+        b = self.blk
+        if b is None:
+            return
+        if t not in b["orig"]:
+            with self.world.observing():
+                st, val = read_json(w.path(t))
+            import copy
+            # a missing file enters the buffer as the (empty) in-memory content of the first handle
+            b["orig"][t] = {} if st != "ok" else copy.deepcopy(val)
+            if st != "ok":
+                b["absent"].add(t)
+        order = b["order"].setdefault(t, [])
+        if h not in order:
+            order.append(h)
+        if want_exc is not None:
+            b["uncertain"].add(t)   # a refused operation may or may not have registered its handle
+        if len(order) > 1 and (not b["simple"] or t in b["uncertain"]):
+            self.defect_possible[t] = True
+
+    def block_exit(self, w):
+        b, self.blk = self.blk, None
+        if b is None:
+            return
+        for t, order in b["order"].items():
+            if len(order) < 2:
+                continue
+            if not b["simple"] or t in b["uncertain"]:
+                self.defect_possible[t] = True
+                continue
+            orig = b["orig"].get(t)
+            last = order[-1]
+            skipped = same(b["view"].get((t, last)), orig)
+            # the flush is skipped: the file stays as it was; and without a file, a handle keeps showing
+            # its own last view
+            if skipped and (not same(self.model[t], orig) or
+                            (t in b["absent"] and any(not same(b["view"].get((t, h)), self.model[t])
+                                                      for h in order))):
+                self.defect_possible[t] = True
+                self.probe("flush_defect_predicted")
+            else:
+                self.probe("multi_handle_block_checked_exactly")
 
     def expect(self, w, op, exc, want):
         if want is None and exc is None:
@@ -478,7 +562,7 @@ class Run:
         try:
             self._check_target(w, t, when)
         except Mismatch as m:
-            if len(self.used_in_block.get(t, ())) > 1:
+            if self.defect_possible.get(t):
                 raise Mismatch("C05", "C05:buffered:multi-handle-lost-update",
                                "several handles of one document were used inside a buffered block: " + m.msg,
                                "C05:buffered:multi-handle-lost-update")
